@@ -187,7 +187,7 @@ def gen_relative_program(rnd, base):
                     return shape, ("bin", "-", ("dot",), apm.num(rnd.randrange(0, 400), "d"))
                 if shape == "local":
                     return shape, ("loc", scope_locals[0])
-                return shape, apm.num(rnd.choice([0, 2, 0o177776, 0o177777, 0o100000, rnd.randrange(0x10000)]), rnd.choice([None, "d", "x"]))
+                return shape, apm.num(rnd.choice([0, 0, 2, 4, 0o177776, 0o177777, 0o100000, rnd.randrange(0x10000)]), rnd.choice([None, "d", "x"]))
             form = rnd.choice(["clr x", "mov #1,x", "mov x,y", "mov 2(r0),@x", "jmp @x", "mov x,r1", "ldf x,ac1", "cmp @x,@y", "jsr pc,x", "mul x,r2", "mov @#a,x"])
             k = "rel"
             t1s, t1 = target()
@@ -363,6 +363,20 @@ def run_shard(spec):
         res["sets"]["rel_shapes"].extend(tags)
         if i < 1:
             res["samples"].append({"kind": "rel", "text": refcheck.render_all(prog)["/c04/main.mac"].splitlines()[:14]})
+    for i in range(max(4, nrel // 10)):
+        # (E) the last instruction of the address space: its displacement word ends at 0o177777, the PC it is relative to is 0o200000
+        pre = 2 * rnd.randrange(0, 30)
+        tgt = apm.num(rnd.choice([0, 0, 2, 4, 0o100, 0o177776]), rnd.choice([None, "d"]))
+        form = rnd.choice(["tst", "mov-imm", "jmp-d", "mov-mov"])
+        last = {"tst": apm.insn("tst", ("rel", tgt)), "mov-imm": apm.insn("mov", ("imm", apm.num(0o123)), ("rel", tgt)),
+                "jmp-d": apm.insn("jmp", ("reld", tgt)), "mov-mov": apm.insn("mov", ("rel", tgt), ("rel", apm.num(2)))}[form]
+        size = {"tst": 4, "mov-imm": 6, "jmp-d": 4, "mov-mov": 6}[form]
+        prog = apm.Program([apm.SrcFile("/c04/main.mac", [apm.link(apm.num(0x10000 - pre - size)), apm.blk(".blkb", apm.num(pre)), last])])
+        case = {"kind": "rel", "prog": apm.to_json(prog)}
+        res["violations"].extend(run_case(case, cnt))
+        res["evaluations"] += 1
+        res["distinct"].append(f"top-of-memory|{form}")
+        res["sets"]["rel_shapes"].append(f"top-of-memory|{form}")
     for i in range(nrel // 4):
         prog, tags = gen_shadow_program(rnd, rnd.choice(BASES))
         case = {"kind": "inc", "prog": apm.to_json(prog)}
